@@ -354,6 +354,8 @@ def spec(c: Ctx):
         sf = f if sti == ti else c.forest(sti)
         ch = kids(f, p)
         deep = True if deep is None else deep
+        if not sf:                      # an empty source tree: nothing to add, `before` is not even looked at
+            return ("ok", f, None)
         if any(did_of(x) == did_of(s) for x in ch for s in sf):
             return ("refuse",)
         if deep and sti == ti and any(p in branch_ids(s) for s in sf):
@@ -367,6 +369,20 @@ def spec(c: Ctx):
         return ("ok", f, None)
     if k in ("treecopy", "nodecopy"):
         return ("newtree",)
+    if k == "from_dict":
+        _, ti, p, items = op
+        f = c.forest(ti)
+        ch = kids(f, p)
+        if ch:                          # documented for an empty node only (assert)
+            return ("refuse",)
+        built = build_items(c, items, c.typed(ti), lambda obj: c.calc(ti, obj))
+        if built is None:
+            return ("refuse",)
+        ch.extend(built)
+        return ("ok", f, [])
+    if k == "tree_from_dict":
+        built = build_items(c, op[1], False, hash)
+        return ("newtree_items", built)
     if k == "filter":
         _, ti, n, verd = op
         f = c.forest(ti)
@@ -397,6 +413,20 @@ def spec(c: Ctx):
         ch[:] = filt(ch)
         return ("ok", f, [])
     return ("any",)
+
+
+def build_items(c, items, typed, calc):
+    """nested list-of-dicts -> expected new branches (ids unknown); None if two siblings would share a data_id"""
+    out = []
+    for d, did, sub in items:
+        nd = H.sx_did(did if did is not None else calc(c.w.U.objs[d]))
+        if any(did_of(x) == nd for x in out):
+            return None
+        below = build_items(c, sub, typed, calc)
+        if below is None:
+            return None
+        out.append([None, [c.obj(d), nd, kind_sx(DEFAULT_KIND) if typed else [], []], below])
+    return out
 
 
 def spec_with_op(c, op):
@@ -550,6 +580,16 @@ def check(step, w=None):
         return check_sort(c, step) or frame_others(op, before, after, op[1])
     if s[0] == "newtree":
         return check_newtree(c, step)
+    if s[0] == "newtree_items":
+        if s[1] is None:
+            if res[0] != 1 or res[1] not in REFUSAL_CLASSES or before != after:
+                return f"effect: {name} with duplicate sibling ids must be refused and leave the world unchanged (result {res})"
+            return None
+        if res[0] != 0 or len(after) != len(before) + 1 or after[:len(before)] != before:
+            return f"effect: {name} must add exactly one new tree and touch no other (result {res})"
+        if not same_modulo_new(s[1], after[-1][0], set(step["new_ids"]), set()):
+            return f"effect: {name}: the new tree is {brief(after[-1][0])} but the items give {brief(s[1])}"
+        return None
     if s[0] == "refuse":
         if res[0] != 1 or res[1] not in REFUSAL_CLASSES:
             return f"effect: {name} with documented-invalid arguments was not refused (result {res})"
@@ -570,6 +610,11 @@ def check(step, w=None):
     got = after[ti][0]
     used = set()
     if not same_modulo_new(exp, got, set(step["new_ids"]), used):
+        if brief(got) == brief(exp).replace("None", "?") or brief(got) == brief(exp):
+            gp = {x[0]: x[1] for x, _ in walk(got)}
+            for x, _ in walk(exp):
+                if x[0] is not None and gp.get(x[0]) != x[1]:
+                    return f"effect: {name}: node {x[0]} has payload [data, data_id, kind, meta] = {gp.get(x[0])} but the documented effect gives {x[1]}"
         return f"effect: {name}: tree is {brief(got)} but the documented effect gives {brief(exp)}"
     want = s[2]
     if want == "new":
